@@ -350,9 +350,6 @@ impl KSpec {
     pub fn finding_tag_in(&self, doms: &[Vec<i32>]) -> &'static str {
         let hull = |v: &VSpec| -> (i64, i64) { let w = v.values(doms); (w.iter().cloned().min().unwrap_or(0), w.iter().cloned().max().unwrap_or(0)) };
         match self {
-            KSpec::Mod(x, y, _) if hull(x).0 < 0 || hull(y).0 < 0 => "modulo-negative",
-            KSpec::Mod(x, y, _) if { let (hx, hy) = (hull(x), hull(y)); hy.0 != hy.1 && hy.1 - hy.0 <= 10 && hx.1 - hx.0 > 10 } => "modulo-dividend-boundary-sampling",
-            KSpec::Mod(_, y, _) if { let hy = hull(y); hy.1 - hy.0 > 10 } => "modulo-divisor-boundary-sampling",
             KSpec::LinEq(cs, ..) | KSpec::LinLe(cs, ..) | KSpec::LinNe(cs, ..) if cs.iter().all(|c| *c == 0) => "lin-all-zero-coefficients",
             KSpec::LinEqR(cs, ..) | KSpec::LinLeR(cs, ..) | KSpec::LinNeR(cs, ..) if cs.iter().all(|c| *c == 0) => "lin-all-zero-coefficients",
             _ => "-",
